@@ -436,6 +436,18 @@ func c14Rec(f func() string) (s string) {
 	return f()
 }
 
+// c14WithTimeout runs f (under recover) in a goroutine and gives up after limit: "timeout".
+func c14WithTimeout(limit time.Duration, f func() string) string {
+	done := make(chan string, 1)
+	go func() { done <- c14Rec(f) }()
+	select {
+	case s := <-done:
+		return s
+	case <-time.After(limit):
+		return "timeout"
+	}
+}
+
 func c14Comma(xs []string) string {
 	if len(xs) == 0 {
 		return "-"
@@ -790,6 +802,7 @@ func init() {
 		os.WriteFile(okFile, []byte(okText), 0o644)
 
 		var runs []*c14Run
+		mergeHung := false
 		showVals := []string{"all", "subset", "only-matches"}
 		sortVals := []string{"written-name", "highest-similarity"}
 		// degenerate files every tier runs: empty, blank lines, HEAD only, one living person, one
@@ -881,8 +894,8 @@ func init() {
 
 			// (history) q's MergeDocumentsAndIndividuals in ONE engine: evaluated twice on the same two
 			// documents, then with the same document on both sides, then on a third document
-			if fi%4 == 0 {
-				obs := c14Rec(func() string {
+			if fi%4 == 0 && !mergeHung {
+				obs := c14WithTimeout(20*time.Second, func() string {
 					engine, err := q.NewParser().ParseString("MergeDocumentsAndIndividuals(Document1, Document2)")
 					if err != nil {
 						return "parse error"
@@ -906,6 +919,12 @@ func init() {
 				})
 				c.Eval()
 				c.Count("merge history in one engine: " + obs)
+				if obs == "timeout" {
+					// the goroutine stays blocked; no further in-process merges (fail fast)
+					mergeHung = true
+					c.Notes = append(c.Notes, "fail fast: the in-process merge histories were skipped after one did not return within 20 s")
+					c.Oracle("", "MergeDocumentsAndIndividuals in one engine does not return (hang)", map[string]string{"faults": c14MaskNames(mask), "file": text, "other_file": okText}, "no result within 20 s", "a result or an error")
+				}
 				if obs == "panic" {
 					c.Oracle("", "MergeDocumentsAndIndividuals evaluated repeatedly in one engine panics", map[string]string{"faults": c14MaskNames(mask), "file": text, "other_file": okText}, "panic", "a result or an error")
 				}
@@ -1179,6 +1198,8 @@ func init() {
 		}
 		jobs := make(chan *c14Run)
 		var wg sync.WaitGroup
+		var hangMu sync.Mutex
+		hangs := map[string]int{}
 		for w := 0; w < nw; w++ {
 			wg.Add(1)
 			go func() {
@@ -1188,7 +1209,22 @@ func init() {
 					if limit == 0 {
 						limit = 30 * time.Second
 					}
+					// fail fast: after three runs of a command have hung, the remaining runs of that command
+					// are skipped (each would wait for its time limit; the hang is already a failing input)
+					stream := run.args[0]
+					hangMu.Lock()
+					skip := hangs[stream] >= 3
+					hangMu.Unlock()
+					if skip {
+						run.class, run.detail = "skipped", "three earlier runs of gedcom "+stream+" timed out"
+						continue
+					}
 					c14Exec(bin, run, limit)
+					if run.class == "timeout" {
+						hangMu.Lock()
+						hangs[stream]++
+						hangMu.Unlock()
+					}
 				}
 			}()
 		}
@@ -1199,6 +1235,7 @@ func init() {
 		wg.Wait()
 
 		var slowest time.Duration
+		skipped := map[string]int{}
 		for _, run := range runs {
 			c.Eval()
 			if run.elapsed > slowest {
@@ -1219,6 +1256,10 @@ func init() {
 				c.Count("special run (large / boundary): " + run.kind + " -> " + run.class)
 			}
 			c.Nontrivial(faults + "/" + variant + "/" + run.class)
+			if run.class == "skipped" {
+				skipped[run.args[0]]++
+				continue
+			}
 			cls := "ok"
 			switch run.class {
 			case "panic", "fatal", "timeout":
@@ -1236,6 +1277,9 @@ func init() {
 			if run.model != "" {
 				c.Tie(run.model, cls)
 			}
+		}
+		for stream, n := range skipped {
+			c.Notes = append(c.Notes, fmt.Sprintf("fail fast: %d further runs of gedcom %s were skipped after three runs of it ended in a timeout (see the failing inputs)", n, stream))
 		}
 		c14ReportSites(c)
 		c.Notes = append(c.Notes, fmt.Sprintf("%d files, %d command runs of the real cmd/gedcom binary (built from the tree under test), slowest %.2fs", len(masks), len(runs), slowest.Seconds()))
